@@ -171,6 +171,11 @@ where
 
     /// Initialize the radio for LoRa physical layer communications
     pub async fn init(&mut self) -> Result<(), RadioError> {
+        let result = self.do_init().await;
+        self.standby_on_error(result).await
+    }
+
+    async fn do_init(&mut self) -> Result<(), RadioError> {
         self.cold_start = true;
         self.radio_kind.reset(&mut self.delay).await?;
         self.radio_kind.ensure_ready(self.radio_mode).await?;
@@ -201,6 +206,11 @@ where
     /// private 0x12 -> 0x1424). The sx127x and lr1110 only support values of
     /// that shape and return `RadioError::InvalidSyncWord` for others.
     pub async fn set_lora_sync_word(&mut self, sync_word: u16) -> Result<(), RadioError> {
+        let result = self.do_set_lora_sync_word(sync_word).await;
+        self.standby_on_error(result).await
+    }
+
+    async fn do_set_lora_sync_word(&mut self, sync_word: u16) -> Result<(), RadioError> {
         self.radio_kind.ensure_ready(self.radio_mode).await?;
         if self.radio_mode != RadioMode::Standby {
             self.radio_kind.set_standby().await?;
@@ -214,6 +224,11 @@ where
     /// Place the LoRa physical layer in low power mode, specifying cold or
     /// warm start (if chip supports it)
     pub async fn sleep(&mut self, warm_start_if_possible: bool) -> Result<(), RadioError> {
+        let result = self.do_sleep(warm_start_if_possible).await;
+        self.standby_on_error(result).await
+    }
+
+    async fn do_sleep(&mut self, warm_start_if_possible: bool) -> Result<(), RadioError> {
         if self.radio_mode != RadioMode::Sleep {
             self.radio_kind.ensure_ready(self.radio_mode).await?;
             self.radio_kind
@@ -229,6 +244,19 @@ where
 
     /// Prepare the radio for a transmit operation
     pub async fn prepare_for_tx(
+        &mut self,
+        mdltn_params: &ModulationParams,
+        tx_pkt_params: &mut PacketParams,
+        output_power: i32,
+        buffer: &[u8],
+    ) -> Result<(), RadioError> {
+        let result = self
+            .do_prepare_for_tx(mdltn_params, tx_pkt_params, output_power, buffer)
+            .await;
+        self.standby_on_error(result).await
+    }
+
+    async fn do_prepare_for_tx(
         &mut self,
         mdltn_params: &ModulationParams,
         tx_pkt_params: &mut PacketParams,
@@ -263,30 +291,39 @@ where
     /// Do not call this function within a select branch or in any context where it may be prematurely canceled.
     pub async fn tx(&mut self) -> Result<(), RadioError> {
         if let RadioMode::Transmit = self.radio_mode {
-            self.radio_kind.do_tx().await?;
-            loop {
-                self.wait_for_irq().await?;
-                match self.radio_kind.process_irq_event(self.radio_mode, None, true).await {
-                    Ok(Some(IrqState::Done | IrqState::PreambleReceived)) => {
-                        self.radio_mode = RadioMode::Standby;
-                        return Ok(());
-                    }
-                    Ok(None) => continue,
-                    Err(err) => {
-                        self.radio_kind.ensure_ready(self.radio_mode).await?;
-                        self.radio_kind.set_standby().await?;
-                        self.radio_mode = RadioMode::Standby;
-                        return Err(err);
-                    }
-                }
-            }
+            let result = self.do_tx().await;
+            self.standby_on_error(result).await
         } else {
             Err(RadioError::InvalidRadioMode)
         }
     }
 
+    async fn do_tx(&mut self) -> Result<(), RadioError> {
+        self.radio_kind.do_tx().await?;
+        loop {
+            self.wait_for_irq().await?;
+            match self.radio_kind.process_irq_event(self.radio_mode, None, true).await? {
+                Some(IrqState::Done | IrqState::PreambleReceived) => {
+                    self.radio_mode = RadioMode::Standby;
+                    return Ok(());
+                }
+                None => continue,
+            }
+        }
+    }
+
     /// Configure radio for a receive operation
     pub async fn prepare_for_rx(
+        &mut self,
+        listen_mode: RxMode,
+        mdltn_params: &ModulationParams,
+        rx_pkt_params: &PacketParams,
+    ) -> Result<(), RadioError> {
+        let result = self.do_prepare_for_rx(listen_mode, mdltn_params, rx_pkt_params).await;
+        self.standby_on_error(result).await
+    }
+
+    async fn do_prepare_for_rx(
         &mut self,
         listen_mode: RxMode,
         mdltn_params: &ModulationParams,
@@ -315,9 +352,13 @@ where
     /// use [`LoRa::prepare_for_rx`].
     pub async fn rx_switch_channel(&mut self, frequency_in_hz: u32) -> Result<(), RadioError> {
         if let RadioMode::Receive(listen_mode) = self.radio_mode {
-            self.radio_kind.set_standby().await?;
-            self.radio_kind.set_channel(frequency_in_hz).await?;
-            self.radio_kind.do_rx(listen_mode).await
+            let result = async {
+                self.radio_kind.set_standby().await?;
+                self.radio_kind.set_channel(frequency_in_hz).await?;
+                self.radio_kind.do_rx(listen_mode).await
+            }
+            .await;
+            self.standby_on_error(result).await
         } else {
             Err(RadioError::InvalidRadioMode)
         }
@@ -327,7 +368,8 @@ where
     /// Call [`LoRa::complete_rx`] to wait and handle result.
     pub async fn start_rx(&mut self) -> Result<(), RadioError> {
         if let RadioMode::Receive(listen_mode) = self.radio_mode {
-            self.radio_kind.do_rx(listen_mode).await
+            let result = self.radio_kind.do_rx(listen_mode).await;
+            self.standby_on_error(result).await
         } else {
             Err(RadioError::InvalidRadioMode)
         }
@@ -343,32 +385,34 @@ where
         packet_params: &PacketParams,
         receiving_buffer: &mut [u8],
     ) -> Result<(u8, PacketStatus), RadioError> {
-        if let RadioMode::Receive(_) = self.radio_mode {
-            loop {
-                match self.radio_kind.process_irq_event(self.radio_mode, None, true).await {
-                    Ok(Some(actual_state)) => match actual_state {
-                        IrqState::PreambleReceived => (),
-                        IrqState::Done => {
-                            let received_len = self.radio_kind.get_rx_payload(packet_params, receiving_buffer).await?;
-                            let rx_pkt_status = self.radio_kind.get_rx_packet_status().await?;
-                            return Ok((received_len, rx_pkt_status));
-                        }
-                    },
-                    Ok(None) => (),
-                    Err(err) => {
-                        // if in rx continuous mode, allow the caller to determine whether to keep receiving
-                        if self.radio_mode != RadioMode::Receive(RxMode::Continuous) {
-                            self.radio_kind.ensure_ready(self.radio_mode).await?;
-                            self.radio_kind.set_standby().await?;
-                            self.radio_mode = RadioMode::Standby;
-                        }
-                        return Err(err);
-                    }
-                }
-                self.wait_for_irq().await?;
+        if let RadioMode::Receive(rx_mode) = self.radio_mode {
+            let result = self.do_complete_rx(packet_params, receiving_buffer).await;
+            // if in rx continuous mode, allow the caller to determine whether to keep receiving
+            if rx_mode == RxMode::Continuous {
+                result
+            } else {
+                self.standby_on_error(result).await
             }
         } else {
             Err(RadioError::InvalidRadioMode)
+        }
+    }
+
+    async fn do_complete_rx(
+        &mut self,
+        packet_params: &PacketParams,
+        receiving_buffer: &mut [u8],
+    ) -> Result<(u8, PacketStatus), RadioError> {
+        loop {
+            match self.radio_kind.process_irq_event(self.radio_mode, None, true).await? {
+                Some(IrqState::PreambleReceived) | None => (),
+                Some(IrqState::Done) => {
+                    let received_len = self.radio_kind.get_rx_payload(packet_params, receiving_buffer).await?;
+                    let rx_pkt_status = self.radio_kind.get_rx_packet_status().await?;
+                    return Ok((received_len, rx_pkt_status));
+                }
+            }
+            self.wait_for_irq().await?;
         }
     }
 
@@ -411,6 +455,11 @@ where
 
     /// Start listening to a given frequency and [`Bandwidth`]
     pub async fn listen(&mut self, frequency_in_hz: u32, bandwidth: Bandwidth) -> Result<(), RadioError> {
+        let result = self.do_listen(frequency_in_hz, bandwidth).await;
+        self.standby_on_error(result).await
+    }
+
+    async fn do_listen(&mut self, frequency_in_hz: u32, bandwidth: Bandwidth) -> Result<(), RadioError> {
         self.prepare_modem(frequency_in_hz).await?;
 
         self.radio_kind.set_channel(frequency_in_hz).await?;
@@ -437,6 +486,11 @@ where
 
     /// Prepare the radio for a channel activity detection (CAD) operation
     pub async fn prepare_for_cad(&mut self, mdltn_params: &ModulationParams) -> Result<(), RadioError> {
+        let result = self.do_prepare_for_cad(mdltn_params).await;
+        self.standby_on_error(result).await
+    }
+
+    async fn do_prepare_for_cad(&mut self, mdltn_params: &ModulationParams) -> Result<(), RadioError> {
         self.prepare_modem(mdltn_params.frequency_in_hz).await?;
 
         self.radio_kind.set_modulation_params(mdltn_params).await?;
@@ -453,31 +507,30 @@ where
     /// Do not call this function within a select branch or in any context where it may be prematurely canceled.
     pub async fn cad(&mut self, mdltn_params: &ModulationParams) -> Result<bool, RadioError> {
         if self.radio_mode == RadioMode::ChannelActivityDetection {
-            self.radio_kind.do_cad(mdltn_params).await?;
-            self.wait_for_irq().await?;
-            let mut cad_activity_detected = false;
-            match self
-                .radio_kind
-                .process_irq_event(self.radio_mode, Some(&mut cad_activity_detected), true)
-                .await
-            {
-                Ok(Some(IrqState::Done)) => {
-                    // CAD_ONLY exit returns the chip to STDBY_RC on its own; sync
-                    // radio_mode so the next operation starts from a known state.
-                    self.radio_kind.set_standby().await?;
-                    self.radio_mode = RadioMode::Standby;
-                    Ok(cad_activity_detected)
-                }
-                Err(err) => {
-                    self.radio_kind.ensure_ready(self.radio_mode).await?;
-                    self.radio_kind.set_standby().await?;
-                    self.radio_mode = RadioMode::Standby;
-                    Err(err)
-                }
-                Ok(_) => unreachable!(),
-            }
+            let result = self.do_cad(mdltn_params).await;
+            self.standby_on_error(result).await
         } else {
             Err(RadioError::InvalidRadioMode)
+        }
+    }
+
+    async fn do_cad(&mut self, mdltn_params: &ModulationParams) -> Result<bool, RadioError> {
+        self.radio_kind.do_cad(mdltn_params).await?;
+        self.wait_for_irq().await?;
+        let mut cad_activity_detected = false;
+        match self
+            .radio_kind
+            .process_irq_event(self.radio_mode, Some(&mut cad_activity_detected), true)
+            .await?
+        {
+            Some(IrqState::Done) => {
+                // CAD_ONLY exit returns the chip to STDBY_RC on its own; sync
+                // radio_mode so the next operation starts from a known state.
+                self.radio_kind.set_standby().await?;
+                self.radio_mode = RadioMode::Standby;
+                Ok(cad_activity_detected)
+            }
+            _ => unreachable!(),
         }
     }
 
@@ -487,6 +540,15 @@ where
     ///
     /// Presumes that init() is called before this function
     pub async fn continuous_wave(
+        &mut self,
+        mdltn_params: &ModulationParams,
+        output_power: i32,
+    ) -> Result<(), RadioError> {
+        let result = self.do_continuous_wave(mdltn_params, output_power).await;
+        self.standby_on_error(result).await
+    }
+
+    async fn do_continuous_wave(
         &mut self,
         mdltn_params: &ModulationParams,
         output_power: i32,
@@ -511,6 +573,19 @@ where
         self.radio_mode = RadioMode::Transmit;
         self.radio_kind.set_irq_params(Some(self.radio_mode)).await?;
         self.radio_kind.set_tx_continuous_wave_mode().await
+    }
+
+    /// Leave a failed operation behind: wherever the failure left the chip, bring it back to
+    /// standby so that it and `radio_mode` agree again before the caller sees the error. If the
+    /// chip cannot be brought to standby either, `radio_mode` keeps the mode of the failed operation.
+    async fn standby_on_error<T>(&mut self, result: Result<T, RadioError>) -> Result<T, RadioError> {
+        if result.is_err()
+            && self.radio_kind.ensure_ready(self.radio_mode).await.is_ok()
+            && self.radio_kind.set_standby().await.is_ok()
+        {
+            self.radio_mode = RadioMode::Standby;
+        }
+        result
     }
 
     async fn prepare_modem(&mut self, frequency_in_hz: u32) -> Result<(), RadioError> {
